@@ -47,6 +47,49 @@ func C04(c *Ctx) {
 	r.Rule("C04/R2", "at-rest: encrypt before Put; loaders decrypt and stop on error", 6)
 	r.Rule("C04/R3", "a deal is encrypted for, and addressed to, the same participant", 5)
 	r.Rule("C04/R4", "round entropy derives from the round id and the base seed", 2)
+	// the password that keys the at-rest encryption is the WHOLE password the operator typed: every writer of
+	// Machine.encryptionKey stores nil or the value it was given, unchanged (a copy into a fixed-size buffer truncates,
+	// and every password that agrees on the prefix then opens the keys)
+	{
+		var bad []string
+		n := 0
+		for fn := range c.P.AllFuncs() {
+			if !load.InModule(fn) || c.isTestFunc(fn) || fn.Pkg == nil || !strings.HasSuffix(fn.Pkg.Pkg.Path(), "/airgapped") {
+				continue
+			}
+			ssax.Instrs(fn, func(in ssa.Instruction) {
+				st, ok := in.(*ssa.Store)
+				if !ok {
+					return
+				}
+				fa, ok := st.Addr.(*ssa.FieldAddr)
+				if !ok || ssax.FieldOf(fa) == nil || ssax.FieldOf(fa).Name() != "encryptionKey" || ssax.OwnerName(fa) != "Machine" {
+					return
+				}
+				n++
+				v := ssax.Resolve(st.Val)
+				if ssax.IsNilConst(v) {
+					return
+				}
+				if _, isParam := v.(*ssa.Parameter); isParam {
+					return
+				}
+				// a defensive copy of the whole value: append(<nil or empty>, param...)
+				if call, isCall := v.(*ssa.Call); isCall {
+					if b, isB := call.Common().Value.(*ssa.Builtin); isB && b.Name() == "append" && len(call.Common().Args) == 2 {
+						if _, isP := ssax.Resolve(call.Common().Args[1]).(*ssa.Parameter); isP {
+							return
+						}
+					}
+				}
+				bad = append(bad, fn.Name()+" stores "+ssax.Path(v)+" at "+c.PosOf(in))
+			})
+		}
+		sort.Strings(bad)
+		r.Check(len(bad) == 0 && n >= 2, "C04/R2", "airgapped.Machine.encryptionKey:whole-password", "the stored password is nil or the caller's value unchanged", "", "writers that store something else: "+strings.Join(bad, "; "))
+	}
+	r.Rule("C04/R5", "nonces are not reused across a restart: the replayed log repeats every processed operation (= C12/R4 log completeness)", 1)
+	logComplete(c, "C04/R5")
 	c04Flow(c)
 	c04AtRest(c)
 	c04Addressee(c)
@@ -187,14 +230,14 @@ func c04AtRest(c *Ctx) {
 			if !ok {
 				return
 			}
-			id := ssax.FuncID(ssax.CalleeObj(call))
-			if id != "github.com/syndtr/goleveldb/leveldb.(DB).Put" && id != "github.com/syndtr/goleveldb/leveldb.(Transaction).Put" {
+			dbArgs, isPut := c.levelDBCall(call, "Put")
+			if !isPut || len(dbArgs) < 2 {
 				return
 			}
 			n++
-			val := call.Common().Args[2]
+			val := dbArgs[1]
 			why, bad := t.tainted(val)
-			key := sprintf("db-put:%s:%s", f.Name(), shortKey(ssax.Path(call.Common().Args[1])))
+			key := sprintf("db-put:%s:%s", f.Name(), shortKey(ssax.Path(dbArgs[0])))
 			r.Check(!bad, "C04/R2", key, "what is written to the database is not derived from the private key or a share unless encrypted", c.PosOf(in), "plaintext flow into the database: "+why)
 		})
 	}
